@@ -212,7 +212,7 @@ def _is_err(v):
 
 
 class Evaluator:
-    def __init__(self, prog, inline_prefixes=("svgdx::", "<svgdx::"), max_depth=4, opaque=(), presets=None, type_alias=None, watch=(), name_case=None, transparent=(), iflet=None, absent=(), present=None, script=None, numbered=(), unroll=0, keep_early_none=False, attr_values=None):
+    def __init__(self, prog, inline_prefixes=("svgdx::", "<svgdx::"), max_depth=4, opaque=(), presets=None, type_alias=None, watch=(), name_case=None, transparent=(), iflet=None, absent=(), present=None, script=None, numbered=(), unroll=0, keep_early_none=False, attr_values=None, keyed_watch=False):
         self.prog = prog
         self.keep_early_none = keep_early_none  # an undecided early `return None` is an alternative result, not a guard
         self.script = script or {}  # method -> {"tick": method, "values": [...]}: the value returned depends on how often `tick` was called
@@ -233,6 +233,7 @@ class Evaluator:
         self.transparent = set(transparent)  # local functions that return their (single) argument unchanged for our purposes (fstr)
         self.inline_prefixes = inline_prefixes
         self.max_depth = max_depth
+        self.keyed_watch = keyed_watch
         self.incomplete = []  # places the evaluation could not follow (what it collected may be partial)
         self.by_path = {}
         for bid, h in prog.hir.items():
@@ -459,6 +460,9 @@ class Evaluator:
                 return ("none",)
             if "Ctor" in str(res.get("dk", "")) or "Variant" in str(res.get("dk", "")):
                 return ("variant", path.split("::")[-1])
+            if str(res.get("dk", "")).startswith(("Const", "Static", "AssocConst")) and path in self.by_path and st.get("depth", 0) < self.max_depth:
+                # a named table: its initialiser is evaluated like an expression written in place
+                return self.eval(self.by_path[path]["body"], {}, dict(st, depth=st.get("depth", 0) + 1))
             return None
         if k == "Field":
             fty = (n.get("ty") or "").replace("&", "").replace("mut ", "").strip()
@@ -649,7 +653,15 @@ class Evaluator:
                     except _Continue:
                         continue
             # not decided within the bound: whatever the loop assigns is unknown afterwards
-            self.incomplete.append(f"loop at line {n.get('line')} not followed to its end")
+            def _collectable(m):
+                # with keyed collection only calls whose key is a literal are collected at all - except in the function
+                # under study itself, where a computed key is the table-driven form of the same writes
+                return not self.keyed_watch or st.get("depth", 0) == 0 or (m.get("args") and hirq.lit_str(m["args"][0]) is not None)
+
+            if st.get("depth", 0) <= 1 and (any(m.get("name") in self.watch and _collectable(m) for m in hirq.exprs(n["body"], "MethodCall")) or any(hirq.callee_path(c).split("::")[-1] in self.watch for c in hirq.exprs(n["body"], "Call")) or not self.watch):
+                # (only a loop that can contain the calls being collected makes the collection partial; a value computed
+                # by an unfollowed loop is simply unknown)
+                self.incomplete.append(f"loop at line {n.get('line')} not followed to its end")
             for a in list(hirq.exprs(n["body"], "Assign")) + list(hirq.exprs(n["body"], "AssignOp")):
                 l = a.get("l") or {}
                 while l.get("k") in ("Field", "Index", "Unary"):
@@ -866,6 +878,13 @@ class Evaluator:
             for arm in n["arms"]:
                 probe = dict(env)
                 m = self._match_pat(arm["pat"], sc, probe)
+                if m is True and arm.get("guard"):
+                    # `Some(v) if cond(v) => ..`: a guard the domain can decide selects or skips the arm
+                    g = self.eval(arm["guard"], dict(env, **{k2: v2 for k2, v2 in probe.items()}), st)
+                    if g is not None and not is_form(g) and g[0] == "bool":
+                        if not g[1]:
+                            continue
+                        arm = dict(arm, guard=None)
                 if m is True and not arm.get("guard"):
                     # pattern bindings are scoped to the arm; assignments to outer locals persist
                     bound = {k2: env.get(k2, _MISSING) for k2 in probe if k2 not in env or probe[k2] is not env[k2]}
@@ -977,6 +996,9 @@ class Evaluator:
                 if name is None:
                     return None
                 if arm.get("guard"):
+                    g = self.eval(arm["guard"], e2, st)
+                    if g is not None and not is_form(g) and g[0] == "bool" and not g[1]:
+                        continue  # a guard that is false whatever the scrutinee holds: the arm is never taken
                     name += " if ?"
                 if name not in arms:
                     try:
@@ -995,6 +1017,8 @@ class Evaluator:
             recv = ("obj", self.type_alias[rty])
         if name in self.watch:
             self.calls.append(dict(name=name, recv=recv, args=args, line=n.get("line"), cond=getattr(self, "cond_depth", 0) > 0))
+            if (n.get("ty") or "") == "()":
+                return ("tup", [])  # the call is what was asked for; what a unit-returning callee does inside is not followed
         if any(sc.get("tick") == name for sc in self.script.values()):
             self.ticks[name] = self.ticks.get(name, 0) + 1
         if name in self.script:
@@ -1112,7 +1136,7 @@ class Evaluator:
                 if sub["self"] is not None and n["recv"].get("k") == "Path" and (n["recv"].get("res") or {}).get("local"):
                     env[n["recv"]["res"]["local"]] = sub["self"]
                 return r
-        if d.startswith(self.inline_prefixes) and d not in self.opaque and self.watch and (st["depth"] >= self.max_depth or d not in self.by_path):
+        if d.startswith(self.inline_prefixes) and d not in self.opaque and self.watch and name not in self.watch and name not in TRANSPARENT and name not in self.transparent and (st["depth"] >= self.max_depth or (d not in self.by_path and re.sub(r"::<[^>]*>$", "", d) not in self.by_path and n.get("def", "") not in self.by_path)) and not _plain_accessor(name):
             self.incomplete.append(f"call of {d} at line {n.get('line')} not followed (depth / no source-level body)")
         # opaque local call: an atom over its operands.  Successive calls of a stateful method on the same receiver
         # (an iterator's next(), pop ...) are different values: they are numbered
@@ -1239,6 +1263,11 @@ def _is_name_scrut(n):
         if n is None:
             return False
     return n.get("k") == "Field" and n.get("name") == "name" and n["x"].get("k") == "Path" and (n["x"].get("res") or {}).get("local") is not None
+
+
+def _plain_accessor(name):
+    """methods of the library's own small types that cannot hide a watched call (attribute map / class list reads)"""
+    return name in ("get", "get_attr", "has_attr", "contains_key", "has_class", "pop", "pop_attr", "len", "is_empty", "iter", "keys", "values", "to_vec", "insert", "insert_first", "set_attr", "remove_attrs", "add_class", "add_classes", "pop_class", "get_attrs", "get_classes")
 
 
 def _positional(pat):
